@@ -196,7 +196,12 @@ Q3_(z) == {Quant(q1, vs1, Quant(q2, vs2, bd)) : q1 \in {"forall", "exists"}, q2 
       \cup {Quant(q1, <<BVar("p", TBool)>>, Quant(q2, <<BVar("q", TBool)>>, Quant(q3, <<BVar("b", TBV(2))>>,
                     Op("or", <<Op("iff", <<P, Qs>>), Op("bv_ult", <<Bb, Cc>>)>>)))) :
                 q1 \in {"forall", "exists"}, q2 \in {"forall", "exists"}, q3 \in {"forall", "exists"}}
-LQ_(z) == Q1_(z) \cup Q2_(z) \cup Q3_(z)
+\* the SAME compound sub-term inside the scope of a binder for one of its symbols and outside it (both orders)
+Q4_(z) == {Op(c, <<Quant(qk, vs, bd), bd>>) : c \in {"and", "or"}, qk \in {"forall", "exists"}, vs \in NestVarSets, bd \in NestBodies}
+      \cup {Op(c, <<bd, Quant(qk, vs, bd)>>) : c \in {"and", "iff"}, qk \in {"forall", "exists"}, vs \in NestVarSets, bd \in NestBodies}
+      \cup {Op("and", <<Quant("forall", <<BVar("b", TBV(2))>>, bd), Quant("exists", <<BVar("c", TBV(2))>>, bd)>>) :
+                bd \in {Op("bv_ult", <<Bb, Cc>>), Op("equals", <<Bb, Cc>>)}}
+LQ_(z) == Q1_(z) \cup Q2_(z) \cup Q3_(z) \cup Q4_(z)
 
 
 \* ---------------------------------------------------------------------------
